@@ -524,6 +524,7 @@ func runC20(e *Engine, r *Report) {
 	ruleShardRouting(e, r)
 	ruleBootstrapGate(e, r)
 	ruleCreatedFileSync(e, r, 1, "tools")
+	ruleImportRecordWriters(e, r)
 	borrow(e, r, "C16", "ERR-refusal", "MPT-publish-before-record")
 	borrow(e, r, "C08", "WMW-ondisk-cursors")
 	borrow(e, r, "C10", "ERR-soft-pairs")
